@@ -32,6 +32,7 @@ import crsdgen
 LOGGER = 'sarpy.io.phase_history.cphd'     # CRSDWritingDetails inherits verify_all_written from this module
 K_SEPARATOR = 'header-string-with-separator-unreadable'
 K_AMPSF = 'refused-pvp-rewrite-replaces-ampsf'
+K_LINEBREAK = 'header-string-with-line-break-unreadable'
 
 # theorems of lean/SarpyModel/Props/C09W.lean (namespace Sarpy.Props.C09) about Spec.CphdWriter
 REQUIRED_W = [
@@ -670,30 +671,43 @@ def settle(jobs, ans):
 
 
 def finding_probes(kind, tmpdir):
-    """two fixed histories that the random generator does not draw; each failure carries its finding key"""
+    """fixed histories that the random generator does not draw (each was a defect of sarpy once; the failure carries its key)"""
     fails = []
     gen, Writer, opener, _ = family(kind)
-    # (1) a header string that contains the key/value separator: the file is written, the reader refuses its own header
-    case = {'kind': kind, 'fmt': 'CI2', 'sizes': [(2, 3)], 'amp_sf': False, 'support': [], 'release_info': 'APPROVED := YES', 'target': 'path',
-            'style': 'probe', 'seed': 1}
     path = os.path.join(tmpdir, 'probe.bin')
-    try:
-        g, meta = build(case)
-        rng = random.Random(1)
-        pvp, raw = g.make_pvp(meta, rng), g.make_raw(meta, rng)
-        if os.path.exists(path):
-            os.remove(path)
-        w = Writer(path, meta.copy(), check_existence=False)
-        w.write_file_raw(pvp, raw, None)
-        w.close()
+    # (1) header strings that stress the `KEY := VALUE\n` grammar: a value containing the separator must read back; a value that the
+    #     grammar cannot hold (line break) must either be refused by the writer or read back - never produce a file its reader refuses
+    for release, key in (('APPROVED := YES', K_SEPARATOR), ('LINE ONE\nLINE TWO', K_LINEBREAK)):
+        case = {'kind': kind, 'fmt': 'CI2', 'sizes': [(2, 3)], 'amp_sf': False, 'support': [], 'release_info': release, 'target': 'path',
+                'style': 'probe', 'seed': 1}
         try:
-            rdr = opener(path)
-            rdr.close()
+            g, meta = build(case)
+            rng = random.Random(1)
+            pvp, raw = g.make_pvp(meta, rng), g.make_raw(meta, rng)
+            if os.path.exists(path):
+                os.remove(path)
+            try:
+                w = Writer(path, meta.copy(), check_existence=False)
+            except ValueError:
+                if key == K_LINEBREAK:
+                    continue        # the writer refuses a value the header cannot represent
+                raise
+            w.write_file_raw(pvp, raw, None)
+            w.close()
+            try:
+                rdr = opener(path)
+            except Exception as e:
+                fails.append({'kind': 'read', 'msg': f'{kind} with ReleaseInfo {release!r} is written but cannot be reopened: {type(e).__name__}: {str(e)[:120]}',
+                              'case': case, 'key': key})
+                continue
+            try:
+                hdr = getattr(rdr, 'cphd_header', None) or getattr(rdr, 'crsd_header', None)
+                if hdr is not None and hdr.RELEASE_INFO != release:
+                    fails.append({'kind': 'read', 'msg': f'{kind} header RELEASE_INFO reads back as {hdr.RELEASE_INFO!r}, written {release!r}', 'case': case, 'key': key})
+            finally:
+                rdr.close()
         except Exception as e:
-            fails.append({'kind': 'read', 'msg': f'{kind} with ReleaseInfo {case["release_info"]!r} is written but cannot be reopened: {type(e).__name__}: {str(e)[:120]}',
-                          'case': case, 'key': K_SEPARATOR})
-    except Exception as e:
-        fails.append({'kind': 'write', 'msg': f'separator probe raised {type(e).__name__}: {e}', 'case': case, 'key': None})
+            fails.append({'kind': 'write', 'msg': f'header string probe ({release!r}) raised {type(e).__name__}: {e}', 'case': case, 'key': None})
     # (2) in memory: a refused second write_pvp_array must not change what later formatted signal writes store
     case = {'kind': kind, 'fmt': 'CI4', 'sizes': [(2, 3)], 'amp_sf': True, 'support': [], 'release_info': 'UNRESTRICTED', 'target': 'bytesio',
             'style': 'probe', 'seed': 2}
